@@ -125,7 +125,9 @@ namespace tbfsim {
 bool flavourIsPlain() { return false; }
 long liveAllocations() { return -1; }
 }
-static void installHandlers() { __asan_set_error_report_callback(asanReport); }
+extern "C" void __sanitizer_set_death_callback(void (*)(void));
+static void onSanitizerDeath() { crashLine("sanitizer-abort"); }
+static void installHandlers() { __asan_set_error_report_callback(asanReport); __sanitizer_set_death_callback(onSanitizerDeath); }
 #endif
 
 // ---------------------------------------------------------------------------------------------
